@@ -104,6 +104,25 @@ fn check_pipe(obs: &mut Obs, pipe: &Pipe) {
   if let Some(p) = nested.borrow().as_ref() {
     traces.push(p.notes());
   }
+  // tearing one subscription down must not affect a later subscription of another clone
+  if let Some(u) = keep.first_mut().map(|u| std::mem::replace(u, BoxSubscription::new(()))) {
+    u.unsubscribe();
+  }
+  settle(&mut r, timed);
+  let after = Probe::new();
+  keep.push(op.clone().actual_subscribe(after.clone()));
+  settle(&mut r, timed);
+  if after.notes() != traces[0] {
+    obs.fail(
+      format!("c13:dependent-after-unsubscribe:{}", sig(pipe)),
+      format!(
+        "{}: subscription #1 saw [{}]; after it had been unsubscribed a fresh clone's subscription saw [{}]",
+        pipe.show(),
+        fmt_notes(&traces[0]),
+        fmt_notes(&after.notes())
+      ),
+    );
+  }
   let n_traces = traces.len();
   for (i, t) in traces.iter().enumerate() {
     if *t != traces[0] {
